@@ -10,4 +10,7 @@ CASES = [
          old="        if ex is not None:\n            observer.on_error(ex)", new="        if ex is not None:\n            observer.on_next(value)\n            observer.on_error(ex)")]),
     dict(expect="silent", desc="completion: swap order of local reads", edits=[dict(file=A,
          old="            value = self.value\n            has_value = self.has_value\n\n        if has_value:\n            for observer in observers:", new="            has_value = self.has_value\n            value = self.value\n\n        if has_value:\n            for observer in observers:")]),
+    dict(expect="fire", desc="seed C23/2: is_stopped tested outside the lock", names="B3-subscribe-branches", edits=[dict(file="reactivex/subject/asyncsubject.py",
+         old="        with self.lock:\n            self.check_disposed()\n            if not self.is_stopped:\n                self.observers.append(observer)\n                return InnerSubscription(self, observer)\n\n            ex = self.exception",
+         new="        self.check_disposed()\n        if not self.is_stopped:\n            with self.lock:\n                self.observers.append(observer)\n            return InnerSubscription(self, observer)\n\n        with self.lock:\n            ex = self.exception")]),
 ]
